@@ -205,15 +205,16 @@ PossibleSubcommand(c, tok, valid) ==
           ELSE [some |-> FALSE, name |-> <<>>]
 \* Command::find_subcommand (name or alias) -> index into SubView or 0
 FindSubcommand(c, name) == FirstIdx(SubView(c), LAMBDA s : s.name = name \/ name \in SeqToSet(s.aliases))
-\* Parser::possible_long_flag_subcommand (flag aliases are outside the vocabulary)
+\* Parser::possible_long_flag_subcommand: with inference, subcommands that have a long flag and whose
+\* long flag (or else one of whose long flag aliases) starts with the name; then Command::find_long_subcmd
 PossibleLongFlagSub(c, name) ==
   LET subs == SubView(c)
-      cands == SelectSeq(subs, LAMBDA s : s.long_flag # <<>> /\ StartsWith(s.long_flag, name))
-      exact == FirstIdx(subs, LAMBDA s : s.long_flag # <<>> /\ s.long_flag = name)
+      cands == SelectSeq(subs, LAMBDA s : s.long_flag # <<>> /\ (StartsWith(s.long_flag, name) \/ \E i \in 1..Len(s.lfa) : StartsWith(s.lfa[i], name)))
+      exact == FirstIdx(subs, LAMBDA s : (s.long_flag # <<>> /\ s.long_flag = name) \/ name \in SeqToSet(s.lfa))
   IN IF Set(c, "infer_subcommands") /\ Len(cands) = 1 THEN [some |-> TRUE, name |-> cands[1].name]
      ELSE IF exact # 0 THEN [some |-> TRUE, name |-> subs[exact].name]
      ELSE [some |-> FALSE, name |-> <<>>]
-FindShortSub(c, ch) == FirstIdx(SubView(c), LAMBDA s : s.short_flag # <<>> /\ s.short_flag = ch)
+FindShortSub(c, ch) == FirstIdx(SubView(c), LAMBDA s : (s.short_flag # <<>> /\ s.short_flag = ch) \/ ch \in SeqToSet(s.sfa))
 
 \* ---- Parser::parse_long_arg ------------------------------------------------------
 PsArgHyphen(c, st) == st.ps.k \in {"opt", "pos"} /\ HasArg(c, st.ps.id) /\ ArgOf(c, st.ps.id).hyphen
